@@ -161,6 +161,35 @@ QnAdmissible(qn, v, S, W, active, VMax, maxQN) ==
       ref == QnRef(v, S, W, active, VMax, maxQN)
   IN  qn = ref \/ (qn = ref + 1 /\ JustBelow(num, den, ref))
 
+(* -------------------------------------------------------------------------
+   4. The message.  A proof is for exactly one message: hash_to_curve is injective on
+   (key, message) as far as anyone can tell, whatever the length of the message and
+   however much two messages share.  Pairs of messages of one key that differ in a
+   single byte, placed around the 64-byte mark (the beacon value is 64 bytes, the
+   derived hashes 32): at offset 0, 63, 64, 65 and in the last byte. *)
+MsgBase(salt, n) == [i \in 1..n |-> ((salt * 29 + i * 11) % 255) + 1]
+MsgFlip(m, off) == [m EXCEPT ![off + 1] = (m[off + 1] % 255) + 1]        \* off: 0-based offset
+
+VrfMsgPair(rel, len, off) ==
+  [rel |-> rel, len |-> len, off |-> off, m1 |-> MsgBase(len + off, len), m2 |-> MsgFlip(MsgBase(len + off, len), off)]
+
+VrfMsgPairs ==
+  {VrfMsgPair("diffAt0", n, 0) : n \in {32, 64, 65}} \cup
+  {VrfMsgPair("diffAt63", n, 63) : n \in {64, 96}} \cup
+  {VrfMsgPair("diffAt64", n, 64) : n \in {65, 96, 128, 1024}} \cup
+  {VrfMsgPair("diffAt65", n, 65) : n \in {96, 128, 1024}} \cup
+  {VrfMsgPair("diffLast", n, n - 1) : n \in {65, 96, 128, 1024}}
+
+VrfMsgCases == {[pair |-> pr, order |-> o] : pr \in VrfMsgPairs, o \in {"fwd", "rev"}}
+
+(* expected verdict of Verify(pk, Prove(sk, mp), mv) *)
+ExpectedForMessage(mp, mv) == mp = mv
+
+ASSUME \A pr \in VrfMsgPairs :
+         /\ pr.m1 # pr.m2 /\ Len(pr.m1) = Len(pr.m2)
+         /\ Cardinality({i \in 1..Len(pr.m1) : pr.m1[i] # pr.m2[i]}) = 1
+         /\ (pr.off >= 64 => SubSeq(pr.m1, 1, 64) = SubSeq(pr.m2, 1, 64))
+
 (* the statement's range claim holds for the reference on every lottery value
    that can occur (v < VMax: the all-ones string is no canonical point encoding) *)
 QnRangeOK(v, S, W, active, VMax, maxQN) ==
